@@ -23,7 +23,7 @@ def main():
     P = filters.pair_contracts()
     chk.unit('src/engine/engine_util_blas.c', 'mju_sub3', filters.BLAS3, 'math', 'real', check_arith=False)
     chk.unit('src/engine/engine_util_blas.c', 'mju_dot3', filters.BLAS3, 'math', 'real', check_arith=False)
-    chk.unit(FILE, 'mj_filterSphere', P, 'math', 'real', check_arith=False)
+    chk.unit(FILE, 'mj_filterSphere', filters.sphere_contracts(), 'math', 'real', check_arith=False)
     chk.unit(FILE, 'filterCollisionPair', P, 'math', 'real', check_arith=False)
     from contracts import prims
     for fn in ('getMargin', 'getGap'):
